@@ -320,3 +320,35 @@ func TestZZFixedD37CreatehowBadMode(t *testing.T) {
 		t.Fatalf("CREATE3args with createmode3 = 7 decoded without error: mode=%d", in.How.Mode)
 	}
 }
+
+// D-38: the tail of the last kept block was not cleared by an unaligned
+// truncate in the double-indirect range (block 520 and beyond): bmap reported
+// "allocated" for every double-indirect lookup (it compared the new
+// double-indirect root with the *indirect* slot), and zeroTail skips blocks
+// reported as just allocated.
+func TestZZFixedD38TailInDoubleIndirectRange(t *testing.T) {
+	c := MkNfsClient(100 * 1000)
+	defer c.Shutdown()
+	root := fh.MkRootFh3()
+	f := c.CreateOp(root, "f").Resok.Obj.Handle
+	const blk = 600 // > 8 + 512
+	off := uint64(blk * 4096)
+	if r := c.WriteOp(f, off, bytes.Repeat([]byte{0xee}, 4096), nfstypes.FILE_SYNC); r.Status != 0 {
+		t.Fatalf("write: %d", r.Status)
+	}
+	if r := c.SetattrOp(f, off+100); r.Status != 0 {
+		t.Fatalf("shrink: %d", r.Status)
+	}
+	if r := c.SetattrOp(f, off+4096); r.Status != 0 {
+		t.Fatalf("grow: %d", r.Status)
+	}
+	r := c.ReadOp(f, off, 4096)
+	if r.Status != 0 || len(r.Resok.Data) != 4096 {
+		t.Fatalf("read: %d, %d bytes", r.Status, len(r.Resok.Data))
+	}
+	for i := 100; i < 4096; i++ {
+		if r.Resok.Data[i] != 0 {
+			t.Fatalf("byte %d of block %d reads %#x after shrink to +100 and grow to +4096", i, blk, r.Resok.Data[i])
+		}
+	}
+}
